@@ -298,9 +298,9 @@ fn obs_msg(kind: &'static str, m: &Message) -> Node {
             }
         }
     }
-    // a CRLF line end leaves its carriage return at the end of the comment line: the statement's "line breaks
-    // preserved" does not say which form, so "\r\n" and "\n" are treated alike
-    n.prop("text", &text.replace("\r\n", "\n"));
+    // (since /repo commit cee6332 a comment line no longer keeps the carriage return of a CRLF ending: the text is
+    // compared as it is)
+    n.prop("text", &text);
     n.span = Some(super::observe::sp(&m.span));
     n
 }
